@@ -1023,3 +1023,693 @@ Proof.
     + intros L HL. destruct (Nat.eq_dec L 1) as [->|HL1]; [apply R1; auto|apply Rup; lia].
   - change (pw_pos stf) with (pw_pos st2). rewrite Hp1 in Hpos2. destruct om; lia.
 Qed.
+
+(* ------------------------------------------------------------------ the close cascade *)
+Lemma idxs_nil_of_head0 : forall L disk blks hd P,
+  (forall c, In c disk -> 0 < pc_off c) -> LvlDisk L disk blks hd P -> hd = 0 -> idxs disk L = [].
+Proof.
+  intros L disk blks hd P Hnz (_ & _ & H3) H0. destruct (idxs disk L) as [|c r] eqn:E; auto.
+  assert (Hin : In c disk) by (apply (idxs_In disk L c); rewrite E; left; auto).
+  specialize (Hnz c Hin). lia.
+Qed.
+
+Lemma close_step : forall L f st st' blks,
+  (1 <= L)%nat -> (L + S f = 16)%nat -> OffsOK st ->
+  LvlClose L st blks -> (forall M, (L < M)%nat -> LvlRun M st blks) ->
+  py_wr_summary (S f) d L st = PyOk st' ->
+  (LvlDisk L (pw_disk st') blks (py_head_get st' L) [] /\ pl_idx (py_lvl_get st' L) = [] /\
+   LvlClose (S L) st' blks /\ (forall M, (S L < M)%nat -> LvlRun M st' blks) /\ OffsOK st' /\ Frame L st st' /\
+   ents (pw_disk st') L = ents (pw_disk st) L ++ pl_idx (py_lvl_get st L)) \/
+  (st' = st /\ (2 <= L)%nat /\ idxs (pw_disk st) L = [] /\ length (idxs (pw_disk st) (pred L)) = 1%nat /\ py_head_get st L = 0).
+Proof.
+  intros L f st st' blks HL HLf Hoffs (C1 & C2 & C3 & C4 & C5 & C6 & C7 & C8) Hup Hrun.
+  pose proof (py_epc_pos d L Hcons) as Hepc.
+  destruct (py_cons_facts d Hcons) as (_ & _ & _ & _ & _ & Hsumdf & Hq & Hepsq & Heps & _).
+  rewrite wr_summary_unfold in Hrun.
+  destruct ((pl_sum (py_lvl_get st L) =? 0) && (py_nilb (pl_idx (py_lvl_get st L)) || ((1 <? L)%nat && (py_head_get st L =? 0)))) eqn:Hg.
+  - (* nothing written *)
+    injection Hrun as <-. apply andb_true_iff in Hg. destruct Hg as (Hs0 & Hg). apply Z.eqb_eq in Hs0.
+    destruct (pl_idx (py_lvl_get st L)) as [|e es] eqn:EP.
+    + left. split; [exact C1|]. split; [reflexivity|]. split.
+      { apply LvlRun_Close; [lia|intro; lia|apply Hup; lia]. }
+      split; [intros M HM; apply Hup; lia|]. split; [exact Hoffs|]. split.
+      { exists []. rewrite app_nil_r. split; [reflexivity|]. split; [intros c []|]. split; [intros; split; reflexivity|split; reflexivity]. }
+      rewrite app_nil_r. reflexivity.
+    + right. cbn [py_nilb orb] in Hg. apply andb_true_iff in Hg. destruct Hg as (HL1 & Hh0).
+      apply Nat.ltb_lt in HL1. apply Z.eqb_eq in Hh0.
+      destruct Hoffs as (_ & Hoff & _).
+      assert (Hnil : idxs (pw_disk st) L = []).
+      { eapply idxs_nil_of_head0; eauto. intros c Hc. apply Hoff; auto. }
+      split; [reflexivity|]. split; [lia|]. split; [exact Hnil|]. split; [|exact Hh0].
+      cbn [length] in C6. assert (Hes : es = []) by (destruct es; [reflexivity|cbn [length] in C6; nia]).
+      destruct C1 as (_ & Hsrc & _). destruct L as [|[|L]]; try lia. cbn [src_ok pred] in *.
+      unfold ents in Hsrc. rewrite Hnil in Hsrc. cbn in Hsrc. subst es.
+      apply (f_equal (@length Z)) in Hsrc. rewrite map_length in Hsrc. cbn in Hsrc. lia.
+  - (* INDEX + SUMMARY written, the level above fed *)
+    left.
+    assert (Hne : pl_idx (py_lvl_get st L) <> []).
+    { intro E. rewrite (C5 E), E in Hg. cbn in Hg. discriminate. }
+    destruct (py_wr_chunks L st) as (st2, pos) eqn:Hch.
+    destruct f as [|f]; [discriminate|].
+    unfold py_bind in Hrun.
+    destruct (py_feed d (S L) pos st2) as [st3|e] eqn:Hfeed; [|discriminate].
+    destruct C7 as (C7a & C7b); auto.
+    destruct (write_feed_step L st st2 st3 pos blks HL Hoffs C1 C2 Hne C3 C7a C7b (fun E => C8 E Hne) (Hup (S L) ltac:(lia)) Hch Hfeed)
+      as (-> & Hd3 & Hoffs3 & W1 & W2 & W3 & G1 & G2 & G3 & Hl3 & Hts3 & Hl3' & Hh3 & Hdts3 & Hdh3 & Hup3).
+    destruct (Hup (S L) ltac:(lia)) as (_ & _ & (E1 & E2 & E3)).
+    replace (py_epc d (S L)) with (py_q d) in E2 by (destruct L; [lia|reflexivity]).
+    assert (Hcap2 : py_cap d (S L) = py_sumdf d) by (apply py_cap_ge2; lia).
+    assert (Hadd : 0 <= pl_sum (py_lvl_get st L) / py_sumdf d < py_q d).
+    { split; [apply Z.div_pos; lia|]. apply Z.div_lt_upper_bound; lia. }
+    assert (Hsum3 : pl_sum (py_lvl_get st3 (S L)) = Z.of_nat (length (pl_idx (py_lvl_get st (S L)))) * py_q d + pl_sum (py_lvl_get st L) / py_sumdf d).
+    { rewrite Hl3. cbn [appended pl_sum]. rewrite E2. reflexivity. }
+    assert (Hlen3 : Z.of_nat (length (pl_idx (py_lvl_get st3 (S L)))) = Z.of_nat (length (pl_idx (py_lvl_get st (S L)))) + 1).
+    { rewrite Hl3. cbn [appended pl_idx]. rewrite app_length. cbn [length]. lia. }
+    assert (Hlt : pl_sum (py_lvl_get st3 (S L)) < py_eps d) by (rewrite Hsum3, Hepsq; rewrite Hcap2 in E1; nia).
+    replace (py_eps d <=? pl_sum (py_lvl_get st3 (S L))) with false in Hrun by (symmetry; apply Z.leb_gt; exact Hlt).
+    injection Hrun as <-.
+    change (pw_disk (py_lvl_set st3 L (py_lvl_reset (py_lvl_get st3 L)))) with (pw_disk st3).
+    rewrite lvl_get_set_eq. rewrite head_get_lvl_set.
+    split; [exact W1|]. split; [reflexivity|]. split.
+    { unfold LvlClose. change (pw_disk (py_lvl_set st3 L (py_lvl_reset (py_lvl_get st3 L)))) with (pw_disk st3).
+      rewrite lvl_get_set_neq by lia. rewrite head_get_lvl_set.
+      split; [exact G1|]. split; [exact G2|]. split; [lia|]. split; [rewrite Hsum3; nia|].
+      split; [intro E; rewrite E in Hlen3; cbn in Hlen3; lia|]. split.
+      { replace (py_epc d (S L)) with (py_q d) by (destruct L; [lia|reflexivity]). rewrite Hsum3, Hlen3. nia. }
+      split; [intros _; exact Hts3|]. intro; lia. }
+    split.
+    { intros M HM. apply LvlRun_reset_other; [lia|]. apply Hup3; [lia|]. apply Hup. lia. }
+    split; [exact Hoffs3|]. split.
+    { exists [mk_chunk (pw_pos st) (PyIndex L) (pl_its (py_lvl_get st L)) (Z.of_nat (length (pl_idx (py_lvl_get st L)))) (pl_idx (py_lvl_get st L));
+               mk_chunk (pw_pos st + 1) (PySummary L) (pl_sts (py_lvl_get st L)) (pl_sum (py_lvl_get st L)) []].
+      split; [exact Hd3|]. split.
+      { intros c [<-|[<-|[]]]; cbn; (split; [lia|discriminate]). }
+      split.
+      { intros M HM. rewrite lvl_get_set_neq by lia. rewrite head_get_lvl_set. split; [apply Hl3'; lia|apply Hh3; lia]. }
+      split; [exact Hdts3|exact Hdh3]. }
+    unfold ents. rewrite W3, map_app, concat_app. cbn. rewrite app_nil_r. reflexivity.
+Qed.
+
+(* ------------------------------------------------------------------ whole programs *)
+Definition full_or_skip (o : py_op) : Prop :=
+  match o with PyBlk n _ => n = py_spd d | PySkip k => 0 <= k end.
+Definition is_skip (o : py_op) : Prop :=
+  match o with PyBlk _ _ => False | PySkip k => 0 <= k end.
+
+Lemma lvl_get_init : forall pos0 L, py_lvl_get (py_init t0 pos0) L = py_lvl0.
+Proof. intros. unfold py_lvl_get, py_init; cbn. apply nth_nil_dflt. Qed.
+
+Lemma RunInv_init : forall pos0, 0 < pos0 -> RunInv (py_init t0 pos0) [].
+Proof.
+  intros pos0 Hp. split; [|split; [|split]].
+  - split; [exact Hp|]. split; [intros c []|constructor].
+  - split; [cbn; lia|]. split; [cbn; tauto|]. split; [intros n om H; destruct (nth_error (@nil (Z*bool)) 0) eqn:E; cbn in H; discriminate|].
+    split; [reflexivity|]. split; [intros c []|intros c []].
+  - constructor.
+  - intros L HL. unfold LvlRun. rewrite lvl_get_init. cbn [py_init pw_disk].
+    pose proof (py_cap_pos d L Hcons). split; [|split].
+    + split; [intros j c Hj; destruct j; discriminate|]. split.
+      * destruct L as [|[|L]]; cbn; auto. split; auto. intros i o n om Hi. destruct i; discriminate.
+      * unfold py_head_get; cbn. apply nth_nil_dflt.
+    + intros c [].
+    + split; [cbn; lia|]. split; [cbn; lia|]. cbn. congruence.
+Qed.
+
+Lemma skip_RunInv : forall st blks k, 0 <= k -> RunInv st blks ->
+  RunInv {| pw_disk := pw_disk st; pw_pos := pw_pos st + k; pw_lvls := pw_lvls st;
+            pw_heads := pw_heads st; pw_dts := pw_dts st; pw_dhead := pw_dhead st |} blks.
+Proof.
+  intros st blks k Hk ((Hp & Ho & Hnd) & Hd & Hf & Hl). split; [|split; [|split]]; auto.
+  split; [cbn; lia|]. split; [|exact Hnd]. intros c Hc. specialize (Ho c Hc). cbn. lia.
+Qed.
+
+Lemma skip_CloseReady : forall st blks k, 0 <= k -> CloseReady st blks ->
+  CloseReady {| pw_disk := pw_disk st; pw_pos := pw_pos st + k; pw_lvls := pw_lvls st;
+                pw_heads := pw_heads st; pw_dts := pw_dts st; pw_dhead := pw_dhead st |} blks.
+Proof.
+  intros st blks k Hk ((Hp & Ho & Hnd) & Hd & Hb & Hc1 & Hl). split; [|split; [|split; [|split]]]; auto.
+  split; [cbn; lia|]. split; [|exact Hnd]. intros c Hc. specialize (Ho c Hc). cbn. lia.
+Qed.
+
+Lemma started_of_dhead : forall st blks, RunInv st blks -> negb (pw_dhead st =? 0) = negb (py_nilb blks).
+Proof.
+  intros st blks (_ & (_ & D2 & _) & _). destruct blks as [|b r]; cbn.
+  - replace (pw_dhead st =? 0) with true; [reflexivity|]. symmetry. apply Z.eqb_eq. apply D2. reflexivity.
+  - replace (pw_dhead st =? 0) with false; [reflexivity|]. symmetry. apply Z.eqb_neq. intro E. apply D2 in E. discriminate.
+Qed.
+
+Lemma run_full_ops : forall ops st st' blks,
+  RunInv st blks -> Forall full_or_skip ops -> py_do_all d ops st = PyOk st' ->
+  RunInv st' (blks ++ py_blocks_from (negb (py_nilb blks)) ops).
+Proof.
+  induction ops as [|o ops IH]; intros st st' blks Hinv Hops Hrun.
+  - cbn in Hrun. injection Hrun as <-. cbn. rewrite app_nil_r. exact Hinv.
+  - inversion Hops as [|? ? Ho Hops']; subst. cbn [py_do_all] in Hrun. unfold py_bind in Hrun.
+    destruct (py_do d o st) as [st1|e] eqn:Hdo; [|discriminate].
+    destruct o as [n req|k]; cbn [py_do] in Hdo; cbn [full_or_skip] in Ho.
+    + destruct Hcons as (_ & Hspd & _).
+      destruct (blk_step st st1 blks n req Hinv ltac:(lia) Hdo) as (_ & HR & _). specialize (HR Ho).
+      rewrite (started_of_dhead st blks Hinv) in HR.
+      cbn [py_blocks_from]. specialize (IH st1 st' _ HR Hops' Hrun).
+      rewrite <- app_assoc in IH. cbn [app] in IH.
+      replace (negb (py_nilb (blks ++ [(n, req && negb (py_nilb blks))]))) with true in IH by (destruct blks; reflexivity).
+      exact IH.
+    + injection Hdo as <-. cbn [py_blocks_from]. eapply IH; [|exact Hops'|exact Hrun]. apply skip_RunInv; auto.
+Qed.
+
+Lemma run_skips : forall ops st st' blks,
+  CloseReady st blks -> Forall is_skip ops -> py_do_all d ops st = PyOk st' ->
+  CloseReady st' blks /\ forall s, py_blocks_from s ops = [].
+Proof.
+  induction ops as [|o ops IH]; intros st st' blks Hinv Hops Hrun.
+  - cbn in Hrun. injection Hrun as <-. auto.
+  - inversion Hops as [|? ? Ho Hops']; subst. destruct o as [n req|k]; cbn in Ho; [contradiction|].
+    cbn [py_do_all py_do] in Hrun. unfold py_bind in Hrun.
+    destruct (IH _ st' blks (skip_CloseReady st blks k Ho Hinv) Hops' Hrun) as (H1 & H2). split; auto.
+Qed.
+
+(* all blocks but the last full: the state at the call of jls_fsr_close *)
+Lemma run_ops_CloseReady : forall pre n req post pos0 st,
+  0 < pos0 -> Forall full_or_skip pre -> Forall is_skip post -> 1 <= n <= py_spd d ->
+  py_do_all d (pre ++ PyBlk n req :: post) (py_init t0 pos0) = PyOk st ->
+  CloseReady st (py_blocks (pre ++ PyBlk n req :: post)).
+Proof.
+  intros pre n req post pos0 st Hp Hpre Hpost Hn Hrun.
+  assert (Hsplit : forall a b s, py_do_all d (a ++ b) s = py_bind (py_do_all d a s) (py_do_all d b)).
+  { induction a as [|x a IHa]; intros b s; cbn; auto. destruct (py_do d x s); cbn; auto. }
+  assert (Hbsplit : forall a b s, py_blocks_from s (a ++ b) = py_blocks_from s a ++ py_blocks_from (s || negb (py_nilb (py_blocks_from s a))) b).
+  { induction a as [|x a IHa]; intros b s; cbn [app py_blocks_from].
+    - cbn. rewrite orb_false_r. reflexivity.
+    - destruct x as [m r|k]; cbn [py_blocks_from].
+      + rewrite IHa. cbn [app py_nilb negb]. rewrite orb_true_r. cbn. reflexivity.
+      + apply IHa. }
+  rewrite Hsplit in Hrun. unfold py_bind in Hrun.
+  destruct (py_do_all d pre (py_init t0 pos0)) as [st1|e] eqn:H1; [|discriminate].
+  pose proof (run_full_ops pre _ st1 [] (RunInv_init pos0 Hp) Hpre H1) as HR1. cbn [app py_nilb negb] in HR1.
+  cbn [py_do_all] in Hrun. unfold py_bind in Hrun.
+  destruct (py_do d (PyBlk n req) st1) as [st2|e] eqn:H2; [|discriminate]. cbn [py_do] in H2.
+  destruct (blk_step st1 st2 _ n req HR1 Hn H2) as (HC & _ & _).
+  destruct (run_skips post st2 st _ HC Hpost Hrun) as (HC' & Hnil).
+  unfold py_blocks. rewrite Hbsplit. cbn [py_blocks_from]. rewrite Hnil.
+  rewrite (started_of_dhead st1 _ HR1) in HC'. cbn [orb]. exact HC'.
+Qed.
+
+(* ---- the structure after close ---- *)
+Definition DataFin (st : py_wr) (blks : list (Z * bool)) : Prop :=
+  (forall n om, nth_error blks 0 = Some (n, om) -> om = false) /\
+  py_head_get st 0 = nth 0 (ents (pw_disk st) 1) 0 /\
+  (forall c, In c (pw_disk st) -> pc_kind c = PyData -> exists i, nth_error (ents (pw_disk st) 1) i = Some (pc_off c)) /\
+  (forall c, In c (pw_disk st) -> (py_chunk_level c <= 14)%nat).
+
+Definition FinInv (st : py_wr) (blks : list (Z * bool)) (T : nat) : Prop :=
+  OffsOK st /\ DataFin st blks /\ BlksOK blks /\ (1 <= T <= 14)%nat /\
+  (forall M, (1 <= M <= T)%nat -> LvlDisk M (pw_disk st) blks (py_head_get st M) [] /\ idxs (pw_disk st) M <> []) /\
+  length (idxs (pw_disk st) T) = 1%nat /\
+  (forall M, (T < M)%nat -> idxs (pw_disk st) M = [] /\ py_head_get st M = 0).
+
+Definition Climb (L : nat) (st : py_wr) (blks : list (Z * bool)) : Prop :=
+  OffsOK st /\ DataInv st blks /\ BlksOK blks /\
+  (forall M, (1 <= M < L)%nat -> LvlDisk M (pw_disk st) blks (py_head_get st M) [] /\ pl_idx (py_lvl_get st M) = [] /\ idxs (pw_disk st) M <> []) /\
+  LvlClose L st blks /\ forall M, (L < M)%nat -> LvlRun M st blks.
+
+Lemma idxs_nil_of_ents_nil : forall L disk blks hd P,
+  LvlDisk L disk blks hd P -> ents disk L = [] -> idxs disk L = [].
+Proof.
+  intros L disk blks hd P (H1 & _) He. destruct (idxs disk L) as [|c r] eqn:E; auto. exfalso.
+  destruct (H1 0%nat c eq_refl) as (_ & C2 & C3 & _).
+  unfold ents in He. rewrite E in He. cbn in He. apply app_eq_nil in He. destruct He as (He & _). rewrite He in C2. cbn in C2. lia.
+Qed.
+
+Lemma empty_above : forall st blks L n,
+  (forall M, (L < M)%nat -> LvlRun M st blks) -> (1 <= L)%nat -> idxs (pw_disk st) L = [] ->
+  idxs (pw_disk st) (L + S n) = [] /\ py_head_get st (L + S n) = 0 /\
+  pl_idx (py_lvl_get st (L + S n)) = [] /\ pl_sum (py_lvl_get st (L + S n)) = 0.
+Proof.
+  intros st blks L n Hup HL H0. induction n as [|n IH].
+  - replace (L + 1)%nat with (S L) by lia. destruct (Hup (S L) ltac:(lia)) as (HD & _ & (_ & E2 & _)).
+    pose proof HD as (_ & Hsrc & Hh). destruct L as [|L]; [lia|]. cbn [src_ok pred] in Hsrc. rewrite H0 in Hsrc. cbn in Hsrc.
+    apply app_eq_nil in Hsrc. destruct Hsrc as (He & HP).
+    pose proof (idxs_nil_of_ents_nil _ _ _ _ _ HD He) as Hi. rewrite Hi in Hh. rewrite HP in E2. cbn in E2. auto.
+  - destruct IH as (I1 & _). replace (L + S (S n))%nat with (S (L + S n)) by lia.
+    destruct (Hup (S (L + S n)) ltac:(lia)) as (HD & _ & (_ & E2 & _)).
+    pose proof HD as (_ & Hsrc & Hh). cbn [src_ok pred] in Hsrc. replace (L + S n)%nat with (S (L + n)) in * by lia. cbn [src_ok pred] in Hsrc.
+    rewrite I1 in Hsrc. cbn in Hsrc. apply app_eq_nil in Hsrc. destruct Hsrc as (He & HP).
+    pose proof (idxs_nil_of_ents_nil _ _ _ _ _ HD He) as Hi. rewrite Hi in Hh. rewrite HP in E2. cbn in E2. auto.
+Qed.
+
+Lemma done_loop : forall k L st,
+  (L + k = 16)%nat -> (forall M, (L <= M)%nat -> pl_idx (py_lvl_get st M) = [] /\ pl_sum (py_lvl_get st M) = 0) ->
+  py_close_loop k d L st = PyOk st.
+Proof.
+  induction k as [|k IH]; intros L st HLk Hemp; [reflexivity|].
+  cbn [py_close_loop]. replace (16 - L)%nat with (S k) by lia. rewrite wr_summary_unfold.
+  destruct (Hemp L ltac:(lia)) as (-> & ->). cbn. apply IH; [lia|]. intros M HM. apply Hemp. lia.
+Qed.
+
+Lemma src_nonempty_idxs : forall L disk blks hd,
+  LvlDisk L disk blks hd [] -> (L = 1%nat -> blks <> []) -> ((2 <= L)%nat -> idxs disk (pred L) <> []) -> (1 <= L)%nat ->
+  idxs disk L <> [].
+Proof.
+  intros L disk blks hd (_ & Hsrc & _) H1 H2 HL E. rewrite app_nil_r in Hsrc. unfold ents in Hsrc. rewrite E in Hsrc. cbn in Hsrc.
+  destruct L as [|[|L]]; [lia| |]; cbn [src_ok pred] in Hsrc.
+  - destruct Hsrc as (Hl & _). cbn in Hl. destruct blks; [apply H1; auto|discriminate].
+  - apply (H2 ltac:(lia)). cbn [pred]. destruct (idxs disk (S L)); [reflexivity|discriminate].
+Qed.
+
+Lemma climb_loop : forall k L st st' blks,
+  (L + k = 16)%nat -> (1 <= L)%nat -> Climb L st blks ->
+  py_close_loop k d L st = PyOk st' -> exists T, FinInv st' blks T.
+Proof.
+  induction k as [|k IH]; intros L st st' blks HLk HL (Hoffs & Hdata & Hbok & Hlow & Hcl & Hup) Hrun.
+  - exfalso. destruct (Hlow 15%nat ltac:(lia)) as (_ & _ & Hne).
+    destruct (idxs (pw_disk st) 15) as [|c r] eqn:E; [congruence|].
+    assert (Hin : In c (idxs (pw_disk st) 15)) by (rewrite E; left; auto).
+    apply idxs_In in Hin. destruct Hin as (Hin & Hk). destruct Hdata as (_ & _ & _ & _ & _ & D6).
+    specialize (D6 c Hin). unfold py_chunk_level in D6. rewrite Hk in D6. lia.
+  - cbn [py_close_loop] in Hrun. replace (16 - L)%nat with (S k) in Hrun by lia. unfold py_bind in Hrun.
+    destruct (py_wr_summary (S k) d L st) as [st1|e] eqn:Hws; [|discriminate].
+    destruct (close_step L k st st1 blks HL ltac:(lia) Hoffs Hcl Hup Hws)
+      as [(A1 & A2 & A3 & A4 & A5 & (new & Hd1 & Hnew & Hlowf & Hdts1 & Hdh1) & A7)|(-> & B2 & B3 & B4 & B5)].
+    + (* level L is final; go on with L+1 *)
+      apply (IH (S L) st1 st' blks); auto; try lia.
+      assert (Hknew : forall M c, (M <= L)%nat -> In c new -> pc_kind c <> PyIndex (pred M) /\ (M < L -> pc_kind c <> PyIndex M)%nat).
+      { intros M c HM Hc. destruct (Hnew c Hc) as ((Hl & _) & _). split; [|intro]; eapply level_kind_ne; eauto; lia. }
+      assert (Hlow1 : forall M, (1 <= M < L)%nat ->
+                LvlDisk M (pw_disk st1) blks (py_head_get st1 M) [] /\ pl_idx (py_lvl_get st1 M) = [] /\ idxs (pw_disk st1) M <> []).
+      { intros M HM. destruct (Hlow M HM) as (L1 & L2 & L3). destruct (Hlowf M ltac:(lia)) as (-> & ->). rewrite Hd1.
+        split; [|split; auto].
+        - apply LvlDisk_frame; auto. intros c Hc. destruct (Hknew M c ltac:(lia) Hc) as (K1 & K2). split; auto. apply K2; lia.
+        - rewrite idxs_app_none; auto. intros c Hc. destruct (Hknew M c ltac:(lia) Hc) as (K1 & K2). apply K2; lia. }
+      split; [exact A5|]. split.
+      { (* DataInv is about level 1 only *)
+        destruct Hdata as (D1 & D2 & D3 & D4 & D5 & D6).
+        assert (HB : ents (pw_disk st1) 1 ++ pl_idx (py_lvl_get st1 1) = ents (pw_disk st) 1 ++ pl_idx (py_lvl_get st 1)).
+        { destruct (Nat.eq_dec L 1) as [->|HL1].
+          - rewrite A2, app_nil_r. exact A7.
+          - destruct (Hlowf 1%nat ltac:(lia)) as (-> & _). rewrite Hd1, ents_app_none; auto.
+            intros c Hc. destruct (Hnew c Hc) as ((Hl & _) & _). eapply level_kind_ne; eauto. lia. }
+        split; [rewrite Hdts1; exact D1|]. split; [rewrite Hdh1; exact D2|]. split; [exact D3|].
+        split; [rewrite HB; destruct (Hlowf 0%nat ltac:(lia)) as (_ & ->); exact D4|]. split.
+        - intros c Hc Hk. rewrite HB. rewrite Hd1 in Hc. apply in_app_or in Hc. destruct Hc as [Hc|Hc]; [apply D5; auto|].
+          destruct (Hnew c Hc) as (_ & Hnd). congruence.
+        - intros c Hc. rewrite Hd1 in Hc. apply in_app_or in Hc. destruct Hc as [Hc|Hc]; [apply D6; auto|].
+          destruct (Hnew c Hc) as ((_ & Hl) & _). exact Hl. }
+      split; [exact Hbok|]. split; [|split; [exact A3|exact A4]].
+      intros M HM. destruct (Nat.eq_dec M L) as [->|HML]; [|apply Hlow1; lia].
+      split; [exact A1|]. split; [exact A2|].
+      eapply src_nonempty_idxs; eauto.
+      * intros ->. destruct Hbok; auto.
+      * intros HL2. destruct (Hlow1 (pred L) ltac:(lia)) as (_ & _ & Hne). exact Hne.
+    + (* the level is dropped: everything above is empty *)
+      assert (Hemp : forall M, (L < M)%nat -> idxs (pw_disk st) M = [] /\ py_head_get st M = 0 /\
+                        pl_idx (py_lvl_get st M) = [] /\ pl_sum (py_lvl_get st M) = 0).
+      { intros M HM. replace M with (L + S (M - L - 1))%nat by lia. eapply empty_above; eauto. }
+      rewrite (done_loop k (S L) st) in Hrun; [|lia|intros M HM; destruct (Hemp M ltac:(lia)) as (_ & _ & E1 & E2); auto].
+      injection Hrun as <-. exists (pred L).
+      destruct (Hlow 1%nat ltac:(lia)) as (_ & HP1 & _).
+      destruct Hdata as (D1 & D2 & D3 & D4 & D5 & D6). rewrite HP1, app_nil_r in D4, D5.
+      split; [exact Hoffs|]. split; [split; [exact D3|split; [exact D4|split; [exact D5|exact D6]]]|].
+      split; [exact Hbok|]. split; [lia|]. split.
+      { intros M HM. destruct (Hlow M ltac:(lia)) as (L1 & _ & L3). auto. }
+      split; [exact B4|]. intros M HM. destruct (Nat.eq_dec M L) as [->|HML]; [auto|].
+      destruct (Hemp M ltac:(lia)) as (E1 & E2 & _). auto.
+Qed.
+
+(* pyramid of a closed signal *)
+Lemma run_FinInv : forall pre n req post pos0 st,
+  0 < pos0 -> Forall full_or_skip pre -> Forall is_skip post -> 1 <= n <= py_spd d ->
+  py_run d t0 pos0 (pre ++ PyBlk n req :: post) = PyOk st ->
+  exists T, FinInv st (py_blocks (pre ++ PyBlk n req :: post)) T.
+Proof.
+  intros pre n req post pos0 st Hp Hpre Hpost Hn Hrun. unfold py_run in Hrun.
+  destruct (py_div_ok d); [|discriminate]. unfold py_bind in Hrun.
+  destruct (py_do_all d (pre ++ PyBlk n req :: post) (py_init t0 pos0)) as [st1|e] eqn:H1; [|discriminate].
+  pose proof (run_ops_CloseReady pre n req post pos0 st1 Hp Hpre Hpost Hn H1) as (Ho & Hd & Hb & Hc1 & Hl).
+  unfold py_close in Hrun. eapply (climb_loop 15 1 st1 st); eauto.
+  split; [exact Ho|]. split; [exact Hd|]. split; [exact Hb|]. split; [intros M HM; lia|]. split; [exact Hc1|].
+  intros M HM. apply Hl. lia.
+Qed.
+
+(* ------------------------------------------------------------------ 5. the reader on a closed pyramid *)
+Lemma find_nth : forall disk i c,
+  NoDup (map pc_off disk) -> nth_error disk i = Some c -> py_find disk (pc_off c) = Some (c, nth_error disk (S i)).
+Proof.
+  induction disk as [|a disk IH]; intros i c Hnd Hi; [destruct i; discriminate|].
+  inversion Hnd as [|? ? Hni Hnd']; subst. destruct i as [|i]; cbn in Hi.
+  - injection Hi as ->. cbn [py_find]. rewrite Z.eqb_refl. destruct disk; reflexivity.
+  - cbn [py_find]. destruct (pc_off a =? pc_off c) eqn:E.
+    + apply Z.eqb_eq in E. exfalso. apply Hni. rewrite E. apply in_map. eapply nth_error_In; eauto.
+    + rewrite (IH i c Hnd' Hi). reflexivity.
+Qed.
+
+Lemma nth_unique : forall disk i i' c,
+  NoDup (map pc_off disk) -> nth_error disk i = Some c -> nth_error disk i' = Some c -> i = i'.
+Proof.
+  intros disk i i' c Hnd Hi Hi'. eapply (NoDup_nth_error (map pc_off disk)); eauto.
+  - rewrite map_length. eapply nth_error_lt; eauto.
+  - rewrite !nth_error_map, Hi, Hi'. reflexivity.
+Qed.
+
+Lemma find_In : forall disk c,
+  NoDup (map pc_off disk) -> In c disk -> exists nx, py_find disk (pc_off c) = Some (c, nx).
+Proof. intros disk c Hnd Hin. destruct (In_nth_error _ _ Hin) as (i & Hi). eexists. eapply find_nth; eauto. Qed.
+
+Lemma top_scan : forall heads T k,
+  (T < k)%nat -> (forall M, (T < M < k)%nat -> nth M heads 0 = 0) -> nth T heads 0 <> 0 ->
+  py_top heads k = Some (T, nth T heads 0).
+Proof.
+  intros heads T k. induction k as [|k IH]; intros HT Hz Hnz; [lia|].
+  cbn [py_top]. destruct (Nat.eq_dec k T) as [->|Hne].
+  - replace (nth T heads 0 =? 0) with false by (symmetry; apply Z.eqb_neq; auto). reflexivity.
+  - rewrite (Hz k) by lia. cbn. apply IH; auto; try lia. intros M HM. apply Hz. lia.
+Qed.
+
+Lemma len_top_scan : forall disk heads T k,
+  (T < k)%nat -> (forall M, (T < M < k)%nat -> nth M heads 0 = 0) -> nth T heads 0 <> 0 ->
+  py_find disk (nth T heads 0) <> None ->
+  py_len_top disk heads k = Some (T, nth T heads 0).
+Proof.
+  intros disk heads T k. induction k as [|k IH]; intros HT Hz Hnz Hf; [lia|].
+  cbn [py_len_top]. destruct (Nat.eq_dec k T) as [->|Hne].
+  - replace (nth T heads 0 =? 0) with false by (symmetry; apply Z.eqb_neq; auto).
+    destruct (py_find disk (nth T heads 0)); [reflexivity|congruence].
+  - rewrite (Hz k) by lia. cbn. apply IH; auto; try lia. intros M HM. apply Hz. lia.
+Qed.
+
+Section Reader.
+Variable st : py_wr.
+Variable blks : list (Z * bool).
+Variable T : nat.
+Hypothesis Hfin : FinInv st blks T.
+
+Let disk := pw_disk st.
+Let heads := pw_heads st.
+
+Lemma fin_nodup : NoDup (map pc_off disk).
+Proof. destruct Hfin as ((_ & _ & H) & _). exact H. Qed.
+
+Lemma fin_lvl : forall M, (1 <= M <= T)%nat -> LvlDisk M disk blks (py_head_get st M) [].
+Proof. intros M HM. destruct Hfin as (_ & _ & _ & _ & H & _). apply H; auto. Qed.
+
+(* entry k of chunk j of level M is element j*cap+k of the flattened pointer list *)
+Lemma fin_ptr : forall M j c k,
+  (1 <= M <= T)%nat -> nth_error (idxs disk M) j = Some c -> (k < length (pc_entries c))%nat ->
+  nth_error (ents disk M) (j * Z.to_nat (py_cap d M) + k) = nth_error (pc_entries c) k.
+Proof.
+  intros M j c k HM Hj Hk. destruct (fin_lvl M HM) as (Hck & _).
+  unfold ents. apply nth_error_concat_full with (l := pc_entries c); auto.
+  - intros i l' Hi Hl'. rewrite nth_error_map in Hl'. destruct (nth_error (idxs disk M) i) as [ci|] eqn:Ei; [|discriminate].
+    cbn in Hl'. injection Hl' as <-. destruct (Hck i ci Ei) as (_ & C2 & _ & C4 & _).
+    rewrite C4 in C2 by (apply nth_error_lt in Hj; lia). lia.
+  - rewrite nth_error_map, Hj. reflexivity.
+Qed.
+
+(* number of children: all chunks but the last are full *)
+Lemma fin_count : forall M j c,
+  (1 <= M <= T)%nat -> nth_error (idxs disk M) j = Some c ->
+  (j * Z.to_nat (py_cap d M) + length (pc_entries c) <= length (ents disk M))%nat /\
+  (S j = length (idxs disk M) -> (j * Z.to_nat (py_cap d M) + length (pc_entries c) = length (ents disk M))%nat).
+Proof.
+  intros M j c HM Hj. destruct (fin_lvl M HM) as (Hck & _). pose proof (py_cap_pos d M Hcons) as Hcp.
+  destruct (Hck j c Hj) as (_ & C2 & C3 & _).
+  split.
+  - assert (Hk : (length (pc_entries c) - 1 < length (pc_entries c))%nat) by lia.
+    pose proof (fin_ptr M j c _ HM Hj Hk) as E.
+    destruct (nth_error_ex _ (pc_entries c) _ Hk) as (o & Ho). rewrite Ho in E. apply nth_error_lt in E. lia.
+  - intro Hlast. unfold ents.
+    assert (Hsplit : exists front, idxs disk M = front ++ [c] /\ length front = j).
+    { destruct (@exists_last _ (idxs disk M)) as (front & lastc & E); [intro E; rewrite E in Hj; destruct j; discriminate|].
+      exists front. rewrite E in Hlast, Hj. rewrite app_length in Hlast. cbn in Hlast.
+      assert (length front = j) by lia. subst j. rewrite nth_error_snoc_last in Hj. injection Hj as ->. auto. }
+    destruct Hsplit as (front & E & Hlen). rewrite E, map_app, concat_app, app_length. cbn. rewrite app_nil_r.
+    rewrite (length_concat_full _ _ (Z.to_nat (py_cap d M))).
+    + rewrite map_length. lia.
+    + intros l Hl. apply in_map_iff in Hl. destruct Hl as (ci & <- & Hin). destruct (In_nth_error _ _ Hin) as (i & Hi).
+      assert (Hi' : nth_error (idxs disk M) i = Some ci).
+      { rewrite E, nth_error_app1; auto. eapply nth_error_lt; eauto. }
+      destruct (Hck i ci Hi') as (_ & D2 & _ & D4 & _). apply nth_error_lt in Hi. rewrite D4 in D2 by (rewrite E, app_length; cbn; lia). lia.
+Qed.
+
+
+Lemma fin_src1 : length (ents disk 1) = length blks /\
+  forall i o n om, nth_error (ents disk 1) i = Some o -> nth_error blks i = Some (n, om) ->
+    if (om : bool) then o = 0
+    else exists c, In c disk /\ pc_off c = o /\ pc_kind c = PyData /\ pc_ts c = t0 + Z.of_nat i * py_spd d /\ pc_count c = n.
+Proof.
+  destruct Hfin as (_ & _ & _ & HT & _). destruct (fin_lvl 1 ltac:(lia)) as (_ & Hsrc & _).
+  rewrite app_nil_r in Hsrc. exact Hsrc.
+Qed.
+
+Lemma fin_srcN : forall M, (2 <= M <= T)%nat -> ents disk M = map pc_off (idxs disk (pred M)).
+Proof.
+  intros M HM. destruct (fin_lvl M ltac:(lia)) as (_ & Hsrc & _). rewrite app_nil_r in Hsrc.
+  destruct M as [|[|M]]; try lia. exact Hsrc.
+Qed.
+
+Lemma blks_split : exists l n om, blks = l ++ [(n, om)] /\ Forall (fun b => fst b = py_spd d) l /\ 1 <= n <= py_spd d.
+Proof.
+  destruct Hfin as (_ & _ & (Hne & Hb) & _).
+  destruct (@exists_last _ blks Hne) as (l & (n, om) & E). exists l, n, om. split; [exact E|]. split.
+  - apply Forall_forall. intros (n0, om0) Hin. destruct (In_nth_error _ _ Hin) as (i & Hi).
+    assert (Hi' : nth_error blks i = Some (n0, om0)) by (rewrite E, nth_error_app1; auto; eapply nth_error_lt; eauto).
+    destruct (Hb i n0 om0 Hi') as (_ & Hf). cbn. apply Hf. apply nth_error_lt in Hi. rewrite E, app_length. cbn. lia.
+  - destruct (Hb (length l) n om) as (Hn & _); [rewrite E; apply nth_error_snoc_last|exact Hn].
+Qed.
+
+Lemma total_full : forall l, Forall (fun b => fst b = py_spd d) l -> py_total l = Z.of_nat (length l) * py_spd d.
+Proof.
+  induction l as [|b l IH]; intro H; [reflexivity|]. inversion H; subst. unfold py_total in *. cbn [fold_right length].
+  rewrite IH by auto. lia.
+Qed.
+
+Lemma total_app : forall a b, py_total (a ++ b) = py_total a + py_total b.
+Proof. induction a as [|x a IH]; intro b; unfold py_total in *; cbn; [reflexivity|]. rewrite IH. ring. Qed.
+
+(* the block that holds relative position x *)
+Lemma block_of : forall x, 0 <= x < py_total blks ->
+  exists n om, nth_error blks (Z.to_nat (x / py_spd d)) = Some (n, om) /\ 0 <= x - (x / py_spd d) * py_spd d < n /\ 1 <= n <= py_spd d /\
+    ((S (Z.to_nat (x / py_spd d)) < length blks)%nat -> n = py_spd d).
+Proof.
+  intros x Hx. destruct blks_split as (l & n & om & E & Hl & Hn). destruct Hcons as (_ & Hspd & _).
+  rewrite E, total_app, total_full in Hx by auto. unfold py_total in Hx. cbn in Hx.
+  pose proof (Z.div_mod x (py_spd d) ltac:(lia)) as Ed. pose proof (Z.mod_pos_bound x (py_spd d) Hspd) as Bd.
+  assert (Hi : 0 <= x / py_spd d <= Z.of_nat (length l)).
+  { split; [apply Z.div_pos; lia|]. apply Z.lt_succ_r. apply Z.div_lt_upper_bound; lia. }
+  destruct (Z.eq_dec (x / py_spd d) (Z.of_nat (length l))) as [Ee|Ene].
+  - exists n, om. rewrite Ee, Nat2Z.id, E. split; [apply nth_error_snoc_last|]. split; [rewrite Ee in Ed; lia|]. split; auto.
+    rewrite app_length. cbn. lia.
+  - destruct (nth_error_ex _ l (Z.to_nat (x / py_spd d))) as ((n0 & om0) & Hn0); [lia|].
+    exists n0, om0. rewrite E, nth_error_app1 by lia. split; [exact Hn0|].
+    rewrite Forall_forall in Hl. specialize (Hl _ (nth_error_In _ _ Hn0)). cbn in Hl. subst n0. split; [lia|]. split; [lia|auto].
+Qed.
+
+Lemma fin_m_pos : forall M, (1 <= M <= T)%nat -> (1 <= length (idxs disk M))%nat.
+Proof.
+  intros M HM. destruct Hfin as (_ & _ & _ & _ & H & _). destruct (H M HM) as (_ & Hne). fold disk in Hne.
+  destruct (idxs disk M); [congruence|cbn; lia].
+Qed.
+
+(* children of a level are at most capacity * chunks *)
+Lemma fin_children_le : forall M, (1 <= M <= T)%nat ->
+  Z.of_nat (length (ents disk M)) <= Z.of_nat (length (idxs disk M)) * py_cap d M.
+Proof.
+  intros M HM. pose proof (fin_m_pos M HM) as Hm. pose proof (py_cap_pos d M Hcons) as Hcp.
+  destruct (nth_error_ex _ (idxs disk M) (length (idxs disk M) - 1)) as (c & Hc); [lia|].
+  destruct (fin_count M _ c HM Hc) as (_ & Hlast). rewrite <- Hlast by lia.
+  destruct (fin_lvl M HM) as (Hck & _). destruct (Hck _ c Hc) as (_ & C2 & C3 & _).
+  rewrite Nat2Z.inj_add, Nat2Z.inj_mul, Z2Nat.id by lia. rewrite <- C2.
+  replace (Z.of_nat (length (idxs disk M) - 1)) with (Z.of_nat (length (idxs disk M)) - 1) by lia. nia.
+Qed.
+
+Lemma total_le_blocks : py_total blks <= Z.of_nat (length blks) * py_spd d.
+Proof.
+  destruct blks_split as (l & n & om & E & Hl & Hn). rewrite E, total_app, total_full, app_length by auto.
+  unfold py_total. cbn. lia.
+Qed.
+
+Lemma fin_coverage : forall M, (1 <= M <= T)%nat ->
+  py_total blks <= Z.of_nat (length (idxs disk M)) * py_span d M.
+Proof.
+  induction M as [|M IH]; intro HM; [lia|].
+  destruct (Nat.eq_dec M 0) as [->|HM0].
+  - pose proof (fin_children_le 1 HM) as Hc. destruct fin_src1 as (Hl & _). rewrite Hl in Hc.
+    rewrite py_span_eq, py_step_1 by lia. pose proof total_le_blocks. destruct Hcons as (_ & Hspd & _). nia.
+  - specialize (IH ltac:(lia)). pose proof (fin_children_le (S M) HM) as Hc.
+    rewrite (fin_srcN (S M)) in Hc by lia. rewrite map_length in Hc. cbn [pred] in Hc.
+    rewrite py_span_succ by lia. pose proof (py_span_pos d M Hcons ltac:(lia)). nia.
+Qed.
+
+
+Lemma seek_loop_unfold : forall dd dk lvl' level offset sid,
+  py_seek_loop dd dk (S lvl') level offset sid =
+    if (S lvl' <=? level)%nat then PyOk offset else
+    match py_find dk offset with
+    | None => PyErr PE_Seek
+    | Some (c, _) =>
+      if py_step dd (S lvl') =? 0 then PyErr (PE_Fault PF_DivZero) else
+      if (Z.quot (sid - pc_ts c) (py_step dd (S lvl')) <? 0) || (pc_count c <=? Z.quot (sid - pc_ts c) (py_step dd (S lvl'))) then PyErr PE_IO
+      else match nth_error (pc_entries c) (Z.to_nat (Z.quot (sid - pc_ts c) (py_step dd (S lvl')))) with
+           | None => PyErr PE_Param
+           | Some o => py_seek_loop dd dk lvl' level o sid
+           end
+    end.
+Proof. reflexivity. Qed.
+
+(* one descent step: the entry selected by the reader's arithmetic, and what it points to *)
+Lemma descend : forall M j c x,
+  (1 <= M <= T)%nat -> 0 <= x < py_total blks ->
+  nth_error (idxs disk M) j = Some c -> Z.of_nat j = x / py_span d M ->
+  let idx := Z.quot (t0 + x - pc_ts c) (py_step d M) in
+  idx = x / py_step d M - Z.of_nat j * py_cap d M /\ 0 <= idx < pc_count c /\
+  exists o, nth_error (pc_entries c) (Z.to_nat idx) = Some o /\
+            nth_error (ents disk M) (Z.to_nat (x / py_step d M)) = Some o.
+Proof.
+  intros M j c x HM Hx Hj Hjx idx.
+  pose proof (py_step_pos d M Hcons ltac:(lia)) as Hsp. pose proof (py_cap_pos d M Hcons) as Hcp.
+  destruct (fin_lvl M HM) as (Hck & _). destruct (Hck j c Hj) as (C1 & C2 & C3 & C4 & _).
+  rewrite py_span_eq in * by lia.
+  set (sp := py_step d M) in *. set (cp := py_cap d M) in *. set (g := x / sp).
+  assert (Hg0 : 0 <= g) by (apply Z.div_pos; lia).
+  assert (Hjg : Z.of_nat j = g / cp).
+  { rewrite Hjx. unfold g. rewrite Z.div_div by lia. f_equal. ring. }
+  assert (Hidx : idx = g - Z.of_nat j * cp).
+  { unfold idx. rewrite C1. replace (t0 + x - (t0 + Z.of_nat j * (cp * sp))) with (x + (- (Z.of_nat j * cp)) * sp) by ring.
+    pose proof (Z.div_mod g cp ltac:(lia)) as Eg. pose proof (Z.mod_pos_bound g cp Hcp) as Bg.
+    pose proof (Z.div_mod x sp ltac:(lia)) as Ex. pose proof (Z.mod_pos_bound x sp Hsp) as Bx. fold g in Ex.
+    rewrite Z.quot_div_nonneg; [|nia|lia]. rewrite Z.div_add by lia. fold g. ring. }
+  assert (Hidx_b : 0 <= idx < cp).
+  { rewrite Hidx, Hjg. pose proof (Z.div_mod g cp ltac:(lia)) as Eg. pose proof (Z.mod_pos_bound g cp Hcp) as Bg. lia. }
+  (* g is below the number of children *)
+  assert (Hcov : g < Z.of_nat (length (ents disk M))).
+  { destruct (Nat.eq_dec M 1) as [->|HM1].
+    - destruct fin_src1 as (Hl & _). rewrite Hl. unfold g, sp. rewrite py_step_1. apply Z.div_lt_upper_bound; [destruct Hcons as (_ & Hs & _); lia|].
+      pose proof total_le_blocks. lia.
+    - rewrite (fin_srcN M) by lia. rewrite map_length. apply Z.div_lt_upper_bound; [lia|].
+      pose proof (fin_coverage (pred M) ltac:(lia)) as Hc. unfold py_span in Hc. replace (S (pred M)) with M in Hc by lia. fold sp in Hc. lia. }
+  destruct (fin_count M j c HM Hj) as (Hle & Hlast).
+  assert (Hic : idx < pc_count c).
+  { destruct (Nat.eq_dec (S j) (length (idxs disk M))) as [El|Nl].
+    - specialize (Hlast El). rewrite <- Hlast in Hcov. rewrite Nat2Z.inj_add, Nat2Z.inj_mul, Z2Nat.id in Hcov by lia. fold cp in Hcov. lia.
+    - rewrite C4 by (apply nth_error_lt in Hj; lia). fold cp. lia. }
+  split; [exact Hidx|]. split; [lia|].
+  assert (Hk : (Z.to_nat idx < length (pc_entries c))%nat) by lia.
+  destruct (nth_error_ex _ _ _ Hk) as (o & Ho). exists o. split; [exact Ho|].
+  rewrite <- Ho. rewrite <- (fin_ptr M j c _ HM Hj Hk). f_equal. fold cp. fold g. lia.
+Qed.
+
+Lemma seek_down : forall M, (1 <= M <= T)%nat -> forall x j c,
+  0 <= x < py_total blks -> nth_error (idxs disk M) j = Some c -> Z.of_nat j = x / py_span d M ->
+  exists c1, nth_error (idxs disk 1) (Z.to_nat (x / py_span d 1)) = Some c1 /\
+             py_seek_loop d disk M 1 (pc_off c) (t0 + x) = PyOk (pc_off c1).
+Proof.
+  induction M as [|M IH]; intros HM x j c Hx Hj Hjx; [lia|].
+  destruct (Nat.eq_dec M 0) as [->|HM0].
+  - exists c. rewrite <- Hjx, Nat2Z.id. split; [exact Hj|]. reflexivity.
+  - rewrite seek_loop_unfold. replace (S M <=? 1)%nat with false by (symmetry; apply Nat.leb_gt; lia).
+    assert (Hin : In c disk) by (apply (idxs_In disk (S M) c); eapply nth_error_In; eauto).
+    destruct (find_In disk c fin_nodup Hin) as (nx & ->).
+    pose proof (py_step_pos d (S M) Hcons ltac:(lia)) as Hsp.
+    replace (py_step d (S M) =? 0) with false by (symmetry; apply Z.eqb_neq; lia).
+    destruct (descend (S M) j c x HM Hx Hj Hjx) as (Hidx & Hb & o & Ho & He).
+    replace (_ || _) with false by (symmetry; apply orb_false_iff; split; [apply Z.ltb_ge|apply Z.leb_gt]; lia).
+    rewrite Ho. rewrite (fin_srcN (S M)) in He by lia. cbn [pred] in He. rewrite nth_error_map in He.
+    destruct (nth_error (idxs disk M) (Z.to_nat (x / py_step d (S M)))) as [c'|] eqn:Ec'; [|discriminate].
+    cbn in He. injection He as <-.
+    apply (IH ltac:(lia) x _ c' Hx Ec'). unfold py_span. rewrite Z2Nat.id; [reflexivity|]. apply Z.div_pos; lia.
+Qed.
+
+Lemma div_ok_true : py_div_ok d = true.
+Proof.
+  destruct (py_cons_facts d Hcons) as (H1 & H2 & _ & _ & _ & H3 & _ & _ & _ & H4 & _). unfold py_div_ok.
+  repeat (apply andb_true_iff; split); apply negb_true_iff; apply Z.eqb_neq; lia.
+Qed.
+
+Lemma fin_top : exists ctop, idxs disk T = [ctop] /\ py_top heads 16 = Some (T, pc_off ctop) /\
+  py_len_top disk heads 16 = Some (T, pc_off ctop) /\ In ctop disk.
+Proof.
+  pose proof Hfin as ((_ & Hoff & _) & _ & _ & HT & Hlv & Hone & Hab). fold disk in Hoff, Hlv, Hone, Hab.
+  destruct (idxs disk T) as [|ctop [|x r]] eqn:E; try (cbn in Hone; discriminate). exists ctop.
+  assert (Hin : In ctop disk) by (apply (idxs_In disk T ctop); rewrite E; left; auto).
+  destruct (Hlv T ltac:(lia)) as ((_ & _ & Hh) & _). fold disk in Hh. rewrite E in Hh.
+  assert (Hnz : nth T heads 0 <> 0) by (change (nth T heads 0) with (py_head_get st T); rewrite Hh; specialize (Hoff ctop Hin); lia).
+  change (nth T heads 0) with (py_head_get st T) in Hnz.
+  split; [reflexivity|]. rewrite <- Hh. split; [|split; [|exact Hin]].
+  - apply top_scan; auto; [lia|]. intros M HM. apply (Hab M). lia.
+  - apply len_top_scan; auto; [lia| |].
+    + intros M HM. apply (Hab M). lia.
+    + change (nth T heads 0) with (py_head_get st T). rewrite Hh. destruct (find_In disk ctop fin_nodup Hin) as (nx & ->). discriminate.
+Qed.
+
+Lemma fsr_seek_ok : forall x, 0 <= x < py_total blks ->
+  exists c1, nth_error (idxs disk 1) (Z.to_nat (x / py_span d 1)) = Some c1 /\
+             py_fsr_seek d disk heads 1 (t0 + x) = PyOk (pc_off c1).
+Proof.
+  intros x Hx. destruct fin_top as (ctop & E & Htop & _ & _). unfold py_fsr_seek. rewrite div_ok_true, Htop. cbn [negb].
+  destruct Hfin as (_ & _ & _ & HT & _).
+  apply (seek_down T ltac:(lia) x 0%nat ctop Hx); [rewrite E; reflexivity|].
+  pose proof (fin_coverage T ltac:(lia)) as Hc. rewrite E in Hc. cbn [length] in Hc.
+  symmetry. apply Z.div_small. lia.
+Qed.
+
+Lemma land255 : forall sig, 0 <= sig < 256 -> Z.land sig 255 = sig.
+Proof. intros sig H. change 255 with (Z.ones 8). rewrite Z.land_ones by lia. apply Z.mod_small. lia. Qed.
+
+Definition cache_ok (sig : Z) (c : py_cache) : Prop :=
+  cc_meta c = 4096 + sig -> cc_off c <> 0 ->
+  exists j i, nth_error (idxs disk 1) j = Some (cc_index c) /\ nth_error disk i = Some (cc_index c) /\
+              nth_error disk (S i) = Some (cc_summary c).
+
+(* a level-1 index chunk and the summary behind it *)
+Lemma fin_l1 : forall j c, nth_error (idxs disk 1) j = Some c ->
+  pc_ts c = t0 + Z.of_nat j * py_span d 1 /\ pc_count c = Z.of_nat (length (pc_entries c)) /\ 1 <= pc_count c <= py_cap d 1 /\
+  exists i s, nth_error disk i = Some c /\ nth_error disk (S i) = Some s /\ pc_kind s = PySummary 1 /\ pc_ts s = pc_ts c /\
+    exists n om, nth_error blks (j * Z.to_nat (py_cap d 1) + Z.to_nat (pc_count c) - 1) = Some (n, om) /\
+                 pc_count s = py_epd d * (pc_count c - 1) + n / py_sdf d.
+Proof.
+  intros j c Hj. destruct Hfin as (_ & _ & _ & HT & _). destruct (fin_lvl 1 ltac:(lia)) as (Hck & _).
+  destruct (Hck j c Hj) as (C1 & C2 & C3 & _ & i & s & Hi & Hs & K1 & K2 & K3). repeat split; auto; try lia.
+  exists i, s. repeat split; auto.
+Qed.
+
+Lemma l1_range_unique : forall j c x, nth_error (idxs disk 1) j = Some c ->
+  pc_ts c <= t0 + x < pc_ts c + pc_count c * py_spd d -> Z.of_nat j = x / py_span d 1.
+Proof.
+  intros j c x Hj Hr. destruct (fin_l1 j c Hj) as (C1 & _ & C3 & _). rewrite C1 in Hr.
+  rewrite py_span_eq, py_step_1 in * by lia. destruct Hcons as (_ & Hspd & _).
+  apply Z.div_unique with (r := x - Z.of_nat j * (py_cap d 1 * py_spd d)); [left; nia|ring].
+Qed.
+
+Lemma l1_count_bound : forall j c, nth_error (idxs disk 1) j = Some c -> 0 <= pc_count c * py_spd d < 2 ^ 32.
+Proof.
+  intros j c Hj. destruct (fin_l1 j c Hj) as (_ & _ & C3 & _).
+  destruct (py_cons_facts d Hcons) as (Hsdf & Hepd & Hspd & Hcap & Heps & _ & _ & _ & _ & _ & Hb).
+  assert (py_cap d 1 * py_spd d = py_eps d * py_sdf d) by (rewrite Heps, Hspd; ring). nia.
+Qed.
+
+Lemma level1_ok : forall sig cache x, 0 <= sig < 256 -> cache_ok sig cache -> 0 <= x < py_total blks ->
+  exists c1 i1 s1, nth_error (idxs disk 1) (Z.to_nat (x / py_span d 1)) = Some c1 /\
+    nth_error disk i1 = Some c1 /\ nth_error disk (S i1) = Some s1 /\
+    snd (py_rd_level1 d disk heads sig cache (t0 + x)) = None /\
+    cc_index (fst (py_rd_level1 d disk heads sig cache (t0 + x))) = c1 /\
+    cc_summary (fst (py_rd_level1 d disk heads sig cache (t0 + x))) = s1 /\
+    cache_ok sig (fst (py_rd_level1 d disk heads sig cache (t0 + x))).
+Proof.
+  intros sig cache x Hsig Hok Hx. unfold py_rd_level1.
+  destruct (py_cache_hit d sig cache (t0 + x)) eqn:Hhit.
+  - unfold py_cache_hit in Hhit. rewrite land255 in Hhit by auto.
+    destruct (cc_meta cache =? 4096 + sig) eqn:Em; cbn [negb] in Hhit; [|discriminate].
+    destruct (cc_off cache =? 0) eqn:Eo; [discriminate|]. apply Z.eqb_eq in Em. apply Z.eqb_neq in Eo.
+    destruct (Hok Em Eo) as (j & i & Hj & Hi & Hs).
+    apply andb_true_iff in Hhit. destruct Hhit as (H1 & H2). apply Z.leb_le in H1. apply Z.ltb_lt in H2.
+    rewrite Z.mod_small in H2 by (eapply l1_count_bound; eauto).
+    pose proof (l1_range_unique j _ x Hj ltac:(lia)) as Ej.
+    exists (cc_index cache), i, (cc_summary cache). cbn [fst snd]. rewrite <- Ej, Nat2Z.id. repeat split; auto.
+  - destruct (fsr_seek_ok x Hx) as (c1 & Hc1 & ->).
+    destruct (fin_l1 _ c1 Hc1) as (_ & _ & _ & i & s & Hi & Hs & _).
+    rewrite (find_nth disk i c1 fin_nodup Hi), Hs. cbn [fst snd cc_index cc_summary].
+    exists c1, i, s. repeat split; auto.
+    intros _ _. cbn [cc_index cc_summary]. exists (Z.to_nat (x / py_span d 1)), i. auto.
+Qed.
+
+End Reader.
+End Pyr.
